@@ -338,7 +338,7 @@ class CylindricalSurfaceHistogram(TransformedHistogramMixin, HistogramND):
         The radius of the surface. Useful for plotting
     """
 
-    default_axis_names = ["rho", "phi", "z"]
+    default_axis_names = ["phi", "z"]
     default_init_values = {"radius": 1}
     source_ndim = 3
 
